@@ -3,6 +3,12 @@
 import json, os
 ROOT = os.path.dirname(os.path.dirname(os.path.abspath(__file__)))
 obs = {fn[:-5]: json.load(open(os.path.join(ROOT, "lean", "obligations", fn))) for fn in sorted(os.listdir(os.path.join(ROOT, "lean", "obligations"))) if fn.endswith(".json")}
+def hook_commits():
+    """every commit of /repo that adds or updates a verif_hooks*.go file (build tag verif), oldest first"""
+    import subprocess
+    out = subprocess.run(["git", "-C", "/repo", "log", "--reverse", "--format=%h", "--", "*verif_hooks*.go"], capture_output=True, text=True).stdout.split()
+    return out or texts["_hooks"]["source_commits"]
+
 texts = {fn[:-5]: json.load(open(os.path.join(ROOT, "lib", "manifest", fn))) for fn in sorted(os.listdir(os.path.join(ROOT, "lib", "manifest"))) if fn.endswith(".json")}
 props = [json.loads(l) for l in open(os.path.join(ROOT, "properties.jsonl"))]
 checks, na = [], []
@@ -30,7 +36,7 @@ m = {
         "guard": "verif",
         "enable": "go build -tags verif (the harness module /verif/harness replaces github.com/benoitkugler/webrender by /repo)",
         "baseline_off_cmd": "cd /repo && GOFLAGS=-mod=mod GOPROXY=off go test -vet=off -count=1 ./...",
-        "source_commits": texts["_hooks"]["source_commits"],
+        "source_commits": hook_commits(),
         "add_only": True,
     },
     "engines": [
